@@ -41,6 +41,17 @@ fn build(templ: &'static str, traits: &'static str, parts: Vec<(usize, String, S
             tags.push("enum+into_existing".into());
         }
     }
+    // no struct / enum body is rendered at all: the host converts every kind by a quick return and no injected type-level
+    // trait instruction asks for a rendered body (one for another counterpart would)
+    if tags.iter().any(|t| t == "traits=quick-return") {
+        let asks_body = parts.iter().any(|p| {
+            let name = p.2.split('@').next().unwrap_or("");
+            p.2.ends_with("@type") && crate::model::all_trait_names().iter().any(|n| *n == name) && !p.1.contains("return")
+        });
+        if !asks_body {
+            tags.push("bodies=none".into());
+        }
+    }
     Case { input, tags, templ, traits, parts }
 }
 
